@@ -505,6 +505,8 @@ class Table:
                 return [ i for i,c in enumerate(col,lo) if c is not None and c > arg ]
 
         if comparison == "match":
+            #how we match is decided by the first value so there has to be one
+            if not col: return []
             if isinstance(arg,Number) and col and isinstance(col[0],Number):
                 return [ i for i,c in enumerate(col,lo) if c == arg ]
             elif isinstance(arg,Number) and isinstance(col[0],str):
